@@ -341,6 +341,9 @@ class Qobj:
             raise ValueError('Provided data do not match the dimensions: ' +
                              f"{self._dims.shape} vs {data.shape}")
         self._data = data
+        # What was known about the previous entries says nothing about these.
+        self._isherm = None
+        self._isunitary = None
 
     @property
     def dtype(self):
@@ -1103,7 +1106,7 @@ class Qobj:
         """
         norm_ = self.norm(norm=norm, kwargs=kwargs)
         if inplace:
-            self.data = _data.mul(self.data, 1 / norm_)
+            self._data = _data.mul(self._data, 1 / norm_)
             self._isherm = self._isherm if norm_.imag == 0 else None
             self._isunitary = (self._isunitary
                                if abs(abs(norm_) - 1) < settings.core['atol']
